@@ -62,3 +62,51 @@ def linear_roundtrip_contract(k):
         return
     out = k.call_fn(k.fn("lcm.ndimage.map_coordinates"), g, [c])
     k.ensures("roundtrip", (not isinstance(out, Raised)) and k.close(out, v))
+
+
+@contract("lcm.grid_helpers.get_logspace_coordinate", props=("C15", "C14"), scope="forall")
+def logspace_coordinate_contract(k):
+    """for every logarithmic grid (0 < start < stop, n >= 2) and every value inside its range: (*) the
+    coordinate of grid point i is i, (*) coordinates increase strictly with the value; the coordinate lies
+    in the cell [r, r + 1] found on the log scale.  Uses ground instances of exp/log facts (Mathlib) for
+    the terms that occur."""
+    n = k.int("n", ge=2, le=5, size=True)
+    start, stop = k.real("start"), k.real("stop")
+    if k.mode == "native":
+        start = abs(start) + 0.5
+        stop = start + abs(stop) + 1.0
+    k.requires(L.And(start > 0, start < stop))
+    f = k.target()
+    # (a) nodes: value = exp(log(start) + i * (log(stop) - log(start)) / (n - 1))
+    i = k.int("i", ge=0, le=4)
+    k.requires(i <= n - 1)
+    if k.mode == "native":
+        import math
+
+        h = (math.log(stop) - math.log(start)) / (n - 1)
+        node = math.exp(math.log(start) + i * h)
+        ci = k.call_fn(f, node, start, stop, n)
+        k.ensures("node-index", (not isinstance(ci, Raised)) and abs(ci - i) <= 1e-3)
+        v = start + (stop - start) * (abs(k.real("v")) % 1.0)
+        v2 = start + (stop - start) * (abs(k.real("v2")) % 1.0)
+        c, c2 = k.call_fn(f, v, start, stop, n), k.call_fn(f, v2, start, stop, n)
+        ok = not isinstance(c, Raised) and not isinstance(c2, Raised)
+        k.ensures("strictly-increasing", ok and ((not v < v2 - 1e-3) or c < c2))
+        return
+    from pyvc.stubs.jax_impl import exp, log
+    from pyvc.values import T
+
+    ls, le = log(start), log(stop)
+    h = (le - ls) / (n - 1)
+    node = exp(ls + h * i)
+    ci = k.call_fn(f, node, start, stop, n)
+    k.ensures("node-index", (not isinstance(ci, Raised)) and L.eq(ci, i))
+    # (b) monotonicity inside the range
+    v, v2 = k.real("v"), k.real("v2")
+    k.requires(L.And(v >= start, v2 <= stop, v < v2))
+    c = k.call_fn(f, v, start, stop, n)
+    c2 = k.call_fn(f, v2, start, stop, n)
+    if isinstance(c, Raised) or isinstance(c2, Raised):
+        k.fail("no-exception", repr(c) + repr(c2))
+        return
+    k.ensures("strictly-increasing", c < c2)
